@@ -59,7 +59,7 @@ LEVEL_TEXT = ("proof for all inputs (Lean 4, no size bound, no sorry): the two-p
               "size, k, slot number and slot-wise content; pickle round trip on the word layout; contiguous mask; "
               "minimizer for every window >= 1 and all keys < INT64_MAX (leftmost window minimum, dedup as in the "
               "code); syncmer selection on top of it; CachedSyncmerSelector = SyncmerSelector on every valid input; "
-              "min-code for any permutation as a function (none, LCG mod 2^64 with the regenerated constants, "
+              "min-code (also with a fractional compression factor) for any permutation as a function (none, LCG mod 2^64 with the regenerated constants, "
               "frequency rank table, custom table) against the exact threshold. PARTIAL / assumptions: "
               "BucketKmerTable.__getitem__ only for k-mer codes < 2^32 (defect witness otherwise); the float64 "
               "rounding of the min-code threshold is an assumption pinned by a boundary correspondence stream; that "
@@ -82,6 +82,10 @@ K_EQ_SPACING = "C10/eq/spacing-ignored"
 K_CTOR_CRASH = "C10/ctor/crash-after-partial-count"
 K_NPK = "C10/kmeralphabet/numpy-scalar-k-arithmetic"
 K_KHASH = "C10/kmeralphabet/hash-unspaced"
+K_NEGKMER = "C10/negative-kmer-code/getitem-unchecked"
+K_ZEROBUCKETS = "C10/bucket/n_buckets-zero-crash"
+K_BIGCODE = "C10/create_kmers/code-exceeds-int64"
+K_BIGSCORE = "C10/similar_kmers/int32-score-overflow"
 
 
 # ---------------------------------------------------------------- small formatting helpers (shared canonical text)
@@ -555,7 +559,7 @@ def _run_ops(ops):
             st.update(ka=None, n=n, k=k, sp=sp)
             st["base"] = (bseq.LetterAlphabet("ABCDEFGHIJKLMNOPQRSTUVWXYZ"[:n]) if n <= 26
                           else bseq.Alphabet(list(range(n))))       # more than 256 symbols: 16-bit symbol codes
-            st["cdtype"] = np.uint8 if n <= 256 else np.uint16
+            st["cdtype"] = np.uint8 if n <= 255 else np.uint16
             arg = sp
             if sp is not None and sp and sp == sorted(set(sp)) and sp[0] == 0 and sum(sp) % 2 == 0:
                 arg = "".join("1" if i in sp else "0" for i in range(sp[-1] + 1))   # string form of the same model
@@ -856,6 +860,8 @@ def oracle(case):
         return _oracle_ctor_reject(case)
     if case.get("kind") in ("npk", "khash"):
         return _oracle_alphabet_misc(case)
+    if case.get("kind") == "probe":
+        return _oracle_probe(case)
     if not case.get("ops"):
         return []
     out = _impl(case)
@@ -1092,6 +1098,11 @@ def oracle(case):
                 elif c == "merge":
                     ids = _parse_nats(w[1])
                     if any(i >= len(tables) for i in ids):
+                        continue
+                    if not ids:                      # from_tables([]) has nothing to take the alphabet from
+                        pr = _refusal_problem("ERR:IndexError", got)
+                        if pr:
+                            bad(op, f"C10/merge/{pr}", "ERR:IndexError", got)
                         continue
                     ts = [tables[i] for i in ids]
                     exp_items = [x for t in ts for x in t["items"]]
@@ -1420,6 +1431,119 @@ def _oracle_alphabet_misc(case):
         narrow = case["n"] ** case["k"] > {"int8": 127, "uint8": 255}.get(case["type"], 10**30)
         key = K_NPK if (narrow or case["type"].startswith("u")) else "C10/kmeralphabet/numpy-k"
         return [(key, f"{case}: expected len {case['n'] ** case['k']}, kmer_array_length(k-2) = -1, {n_km} entries; got {r}")]
+    return []
+
+
+def _oracle_probe(case):
+    """Regions where the Lean model abstains (negative k-mer codes, n_buckets = 0, alphabets beyond int64, int32 score
+    overflow, spaced masks shorter than the mask read): the real code is run in a forked child and held to the
+    property: refuse with an exception, or give the exact answer; never crash, never answer silently wrong."""
+    from common import sandbox
+    _preload()
+    what = case["what"]
+
+    def f():
+        import warnings
+
+        import numpy as np
+
+        import biotite.sequence as bseq
+        import biotite.sequence.align as align
+        warnings.simplefilter("ignore")
+        base = bseq.LetterAlphabet("ABCDEFGHIJKLMNOPQRSTUVWXYZ"[:case["n"]])
+        k = case["k"]
+
+        def mk(codes):
+            s_ = bseq.GeneralSequence(base)
+            s_.code = np.array(codes, dtype=np.uint8)
+            return s_
+        if what == "negative-kmer":
+            cls = align.KmerTable if case["nb"] is None else align.BucketKmerTable
+            kw = {} if case["nb"] is None else {"n_buckets": case["nb"]}
+            t = cls.from_sequences(k, [mk(case["seq"])], **kw)
+            q = case["q"]
+            res = {}
+            for name, fn in (("count", lambda: t.count(np.array([q]))),
+                             ("matchsel", lambda: t.match_kmer_selection(np.array([0]), np.array([q]))),
+                             ("from_kmers", lambda: cls.from_kmers(t.kmer_alphabet, [np.array([q])], **kw)),
+                             ("split", lambda: t.kmer_alphabet.split(q)),
+                             ("getitem", lambda: t[q])):
+                try:
+                    fn()
+                    res[name] = "accepted"
+                except Exception as e:  # noqa: BLE001
+                    res[name] = type(e).__name__
+            return res
+        if what == "zero-buckets":
+            ka = align.KmerAlphabet(base, k)
+            t = align.BucketKmerTable.from_kmers(ka, [np.array(case["kmers"], dtype=np.int64)], n_buckets=case["nbv"])
+            return t.count(np.array(case["kmers"][:1], dtype=np.int64)).tolist()
+        if what == "big-code":
+            ka = align.KmerAlphabet(base, k)
+            codes = ka.create_kmers(np.array(case["seq"], dtype=np.uint8)).tolist()
+            try:
+                align.BucketKmerTable.from_sequences(k, [mk(case["seq"])], n_buckets=7)
+                tbl = "accepted"
+            except Exception as e:  # noqa: BLE001
+                tbl = type(e).__name__
+            return codes, tbl
+        if what == "big-score":
+            m = np.array(case["matrix"], dtype=np.int32).reshape(case["n"], case["n"])
+            rule = align.ScoreThresholdRule(align.SubstitutionMatrix(base, base, m), case["thr"])
+            return sorted(int(x) for x in rule.similar_kmers(align.KmerAlphabet(base, k), case["q"]))
+        if what == "short-spaced-mask":
+            mask = np.array(case["mask"], dtype=bool)
+            t = align.KmerTable.from_sequences(k, [mk(case["seq"])], ignore_masks=[mask], spacing=case["sp"])
+            kms = t.get_kmers()
+            return sorted(int(p) for q_ in kms for (_r, p) in t[q_].tolist())
+        return None
+    r = sandbox.run_forked(f)
+    n, k = case["n"], case["k"]
+    if what == "negative-kmer":
+        if r[0] != "ok":
+            return [(K_NEGKMER, f"{case}: the interpreter died ({r}) on a negative k-mer code")]
+        bad_ = {name: v for name, v in r[1].items() if v != "AlphabetError"}
+        if bad_:
+            return [(K_NEGKMER, f"{case}: a negative k-mer code must be refused with AlphabetError; got {bad_}")]
+        return []
+    if what == "zero-buckets":
+        if r[0] == "crash":
+            return [(K_ZEROBUCKETS, f"{case}: n_buckets={case['nbv']} kills the interpreter (signal {r[1]}) instead of ValueError")]
+        if r[0] == "ok":
+            return [("C10/bucket/n_buckets-not-positive-accepted", f"{case}: accepted, returned {r[1]}")]
+        return [] if r[1] in ("ValueError", "TypeError") else [("C10/bucket/n_buckets-wrong-refusal", str(r))]
+    if what == "big-code":
+        seq = case["seq"]
+        exact = [sum(seq[i + j] * n ** (k - 1 - j) for j in range(k)) for i in range(len(seq) - k + 1)]
+        if r[0] == "err":
+            return []            # refused: fine
+        if r[0] != "ok":
+            return [("C10/create_kmers/crash", str(r))]
+        codes, tbl = r[1]
+        v = []
+        if codes != exact:
+            v.append((K_BIGCODE, f"{case}: create_kmers returned {codes[:3]}, exact codes {exact[:3]} do not fit int64: silent wrap"))
+        if tbl == "accepted" and n ** k > 2**63:
+            v.append(("C10/table/accepts-alphabet-beyond-int64", f"{case}: a table over {n}**{k} k-mers was built"))
+        return v
+    if what == "big-score":
+        m = case["matrix"]
+        digs = lambda q: [(q // n ** (k - 1 - j)) % n for j in range(k)]      # noqa: E731
+        exact = [x for x in range(n ** k) if sum(m[a * n + b] for a, b in zip(digs(case["q"]), digs(x))) >= case["thr"]]
+        if r[0] == "err":
+            return []
+        if r[0] != "ok" or r[1] != exact:
+            return [(K_BIGSCORE, f"{case}: similar_kmers gave {str(r)[:80]}, exact set has {len(exact)} k-mers (int32 overflow)")]
+        return []
+    if what == "short-spaced-mask":
+        sp, mask, seq = case["sp"], case["mask"], case["seq"]
+        span = max(sp) + 1
+        exact = sorted(i for i in range(len(seq) - span + 1) if not any(mask[i + o] for o in sp))
+        if r[0] == "crash":
+            return [("C10/mask/spaced-crash", str(r))]
+        if r[0] == "ok" and r[1] != exact:
+            return [(K_MASK, f"{case}: retained positions {r[1]}, required {exact}")]
+        return []
     return []
 
 
@@ -2059,14 +2183,14 @@ def _audit_case(rng):
                 for j in range(i):
                     m[i][j] = m[j][i]
         mat = ",".join(str(m[i][j]) for i in range(dim) for j in range(dim))
-        thr = rng.choice([0, 1, 2, 2**31 - 1, 2**31, -2**31, -2**31 - 1])
+        thr = rng.choice([0, 1, 2, 2**31 - 1, 2**31, -2**31 - 1, -3])   # -2**31 itself: known finding int32-score-overflow
         q = ref[1:k + 2]
         mask = rng.choice(["-", "-", _bits([True] * len(q)), _bits(_mask(rng, len(q)))])
         ops += [f"simk {rng.randrange(n ** k)} {mat} {thr}", f"matchsim 0 {_nats(q)} {mask} {mat} {thr}",
                 f"kms {nb} - {_nats([] if rng.random() < 0.3 else [0, 1])} -", f"matchtabsim 0 1 {mat} {thr}"]
     elif r < 0.85:
         n, k = rng.choice([(300, 2), (257, 2), (256, 2), (300, 3), (1000, 2)])
-        nb = rng.choice(["d", 7, 101]) if n ** k <= 100000 else rng.choice([7, 101])
+        nb = rng.choice([7, 101])          # direct tables over n**k >= 65536 slots are slow in the Lean driver
         seqs = [[rng.choice([0, 1, min(255, n - 1), min(256, n - 1), n - 1, n - 2, rng.randrange(n)]) for _ in range(k + rng.randint(0, 5))]
                 for _ in range(2)]
         ops = [f"alph {n} {k} -", f"kmers {_nats(seqs[0])}", f"seqs {nb} - {_lists(seqs)} -", "dump 0",
@@ -2124,6 +2248,35 @@ def cases(rng, tier):
         yield {"kind": "npk", "n": n_, "k": k_, "type": rng.choice(["int8", "uint8", "uint16", "uint32", "uint64", "int16", "int32", "int64"]),
                "seq": [rng.randrange(n_) for _ in range(k_ + 3)]}
     yield {"kind": "khash", "n": 4, "k": 3}
+    for _ in range(30 if tier == "quick" else 200):
+        what = rng.choice(["negative-kmer", "negative-kmer", "zero-buckets", "big-code", "big-score", "short-spaced-mask"])
+        if what == "negative-kmer":
+            n_, k_ = rng.choice([(2, 2), (4, 3)])
+            yield {"kind": "probe", "what": what, "n": n_, "k": k_, "nb": rng.choice([None, 1, 5]),
+                   "seq": [rng.randrange(n_) for _ in range(k_ + 4)], "q": rng.choice([-1, -2, -n_ ** k_, -n_ ** k_ - 1, -10**6])}
+        elif what == "zero-buckets":
+            yield {"kind": "probe", "what": what, "n": 2, "k": 2, "nbv": rng.choice([0, 0, -1, -7]),
+                   "kmers": [rng.randrange(4) for _ in range(rng.randint(0, 3))] or [1]}
+        elif what == "big-code":
+            n_, k_ = rng.choice([(4, 32), (4, 32), (20, 15), (2, 64), (4, 31), (20, 14)])
+            yield {"kind": "probe", "what": what, "n": n_, "k": k_,
+                   "seq": [rng.choice([n_ - 1, n_ - 1, rng.randrange(n_)]) for _ in range(k_ + rng.randint(0, 3))]}
+        elif what == "big-score":
+            n_, k_ = rng.choice([(2, 2), (2, 3), (3, 3), (4, 4)])
+            big_ = rng.choice([2**30, 2**29, 2**31 - 1, 10**9])
+            thr_ = rng.choice([1, -2**31, -2**31 + 5, 2**31 - 1, 0])
+            m_ = [rng.choice([big_, big_, 0, 1]) for _ in range(n_ * n_)]
+            for i in range(n_):
+                for j in range(i):
+                    m_[i * n_ + j] = m_[j * n_ + i]
+            yield {"kind": "probe", "what": what, "n": n_, "k": k_, "matrix": m_, "thr": thr_, "q": rng.randrange(n_ ** k_)}
+        else:
+            k_ = rng.choice([2, 3])
+            sp_ = sorted(rng.sample(range(k_ + 3), k_))
+            length = max(sp_) + 1 + rng.choice([0, 0, 1])       # shorter than (k-1) + max(sp) + 1: the code reads beyond the mask
+            mask_ = [rng.random() < 0.3 for _ in range(length)]
+            yield {"kind": "probe", "what": what, "n": 3, "k": k_, "sp": sp_, "mask": mask_,
+                   "seq": [rng.randrange(3) for _ in range(length)]}
     for _ in range(12 if tier == "quick" else 60):
         arrs = [[rng.randrange(64) for _ in range(rng.randint(1, 4))] for _ in range(rng.randint(1, 3))]
         yield {"kind": "ctor-reject", "kmers": arrs, "bad": rng.randrange(len(arrs)), "how": rng.choice(["dtype", "readonly"]),
@@ -2168,7 +2321,7 @@ def corpus():
 
 
 def nontrivial(case, impl_out):
-    if case.get("kind") in ("similarity", "mincode-dtype", "ctor-reject", "npk", "khash"):
+    if case.get("kind") in ("similarity", "mincode-dtype", "ctor-reject", "npk", "khash", "probe"):
         return True
     for line in impl_out or []:
         if line.startswith("ERR") or (line.startswith("ok ") and ":" in line):
